@@ -1,0 +1,272 @@
+//! Verification facade (cargo feature `verif-hooks`, off by default).
+//!
+//! Everything in here is add-only: thin public wrappers and re-exports over crate-private
+//! items, so that an external harness can drive the real code. Nothing in this module changes
+//! the behaviour of the crate and nothing outside `#[cfg(feature = "verif-hooks")]` refers to it.
+
+use crate::{
+    packet::{MessageNonce, Packet, PacketHeader, PacketKind, ProtocolIdentity},
+    Enr,
+};
+use enr::NodeId;
+
+// ---------------------------------------------------------------------------------------------
+// RPC message codec
+// ---------------------------------------------------------------------------------------------
+
+pub use crate::rpc::{Message, Request, RequestBody, RequestId, Response, ResponseBody};
+
+// ---------------------------------------------------------------------------------------------
+// Packet codec (mirror struct because `Packet` is crate-private)
+// ---------------------------------------------------------------------------------------------
+
+/// Public mirror of the crate-private `Packet`.
+#[derive(Debug, Clone, PartialEq, Eq)]
+pub struct VPacket {
+    pub iv: u128,
+    pub message_nonce: MessageNonce,
+    pub protocol_identity: ProtocolIdentity,
+    pub kind: PacketKind,
+    pub message: Vec<u8>,
+}
+
+impl From<Packet> for VPacket {
+    fn from(p: Packet) -> Self {
+        VPacket {
+            iv: p.iv,
+            message_nonce: p.header.message_nonce,
+            protocol_identity: p.header.protocol_identity,
+            kind: p.header.kind,
+            message: p.message,
+        }
+    }
+}
+
+impl From<VPacket> for Packet {
+    fn from(p: VPacket) -> Self {
+        Packet {
+            iv: p.iv,
+            header: PacketHeader {
+                message_nonce: p.message_nonce,
+                protocol_identity: p.protocol_identity,
+                kind: p.kind,
+            },
+            message: p.message,
+        }
+    }
+}
+
+/// `Packet::encode`.
+pub fn packet_encode(packet: VPacket, dst_id: &NodeId) -> Vec<u8> {
+    Packet::from(packet).encode(dst_id)
+}
+
+/// `Packet::decode`; the error is rendered with `Debug`.
+pub fn packet_decode(
+    local_id: &NodeId,
+    protocol_identity: ProtocolIdentity,
+    data: &[u8],
+) -> Result<(VPacket, Vec<u8>), String> {
+    Packet::decode(local_id, protocol_identity, data)
+        .map(|(p, aad)| (p.into(), aad))
+        .map_err(|e| format!("{e:?}"))
+}
+
+/// `Packet::authenticated_data`.
+pub fn packet_authenticated_data(packet: &VPacket) -> Vec<u8> {
+    Packet::from(packet.clone()).authenticated_data()
+}
+
+// ---------------------------------------------------------------------------------------------
+// Routing-table filters
+// ---------------------------------------------------------------------------------------------
+
+/// The table-level IP filter `Discv5::new` installs when `ip_limit` is set.
+pub fn ip_table_filter() -> Box<dyn crate::kbucket::filter::Filter<Enr>> {
+    Box::new(crate::kbucket::filter::IpTableFilter)
+}
+
+/// The bucket-level IP filter `Discv5::new` installs when `ip_limit` is set.
+pub fn ip_bucket_filter() -> Box<dyn crate::kbucket::filter::Filter<Enr>> {
+    Box::new(crate::kbucket::filter::IpBucketFilter)
+}
+
+// ---------------------------------------------------------------------------------------------
+// Iterative queries
+// ---------------------------------------------------------------------------------------------
+
+pub use crate::query_pool::{
+    QueryId, QueryPool, QueryPoolState, QueryResult, QueryState, TargetKey,
+};
+use crate::{
+    kbucket::{Key, PredicateKey},
+    query_pool::{FindNodeQuery, FindNodeQueryConfig, PredicateQuery, PredicateQueryConfig},
+};
+use std::time::{Duration, Instant};
+
+/// Plain-data query configuration (the crate's config structs are not all public).
+#[derive(Debug, Clone)]
+pub struct VQueryConfig {
+    pub parallelism: usize,
+    pub num_results: usize,
+    pub peer_timeout: Duration,
+}
+
+/// Wrapper over `FindNodeQuery<NodeId>`.
+pub struct VFindNodeQuery(FindNodeQuery<NodeId>);
+
+impl VFindNodeQuery {
+    pub fn new(config: VQueryConfig, target: NodeId, known_closest_peers: Vec<NodeId>) -> Self {
+        let cfg = FindNodeQueryConfig {
+            parallelism: config.parallelism,
+            num_results: config.num_results,
+            peer_timeout: config.peer_timeout,
+        };
+        VFindNodeQuery(FindNodeQuery::with_config(
+            cfg,
+            Key::from(target),
+            known_closest_peers.into_iter().map(Key::from),
+        ))
+    }
+    pub fn on_success(&mut self, peer: &NodeId, closer_peers: Vec<NodeId>) {
+        self.0.on_success(peer, closer_peers)
+    }
+    pub fn on_failure(&mut self, peer: &NodeId) {
+        self.0.on_failure(peer)
+    }
+    pub fn next(&mut self, now: Instant) -> QueryState<NodeId> {
+        self.0.next(now)
+    }
+    pub fn is_stalled(&self) -> bool {
+        self.0.verif_is_stalled()
+    }
+    pub fn into_result(self) -> Vec<NodeId> {
+        self.0.into_result()
+    }
+}
+
+/// A minimal "record" for predicate queries: an id and a value the predicate looks at.
+#[derive(Debug, Clone, PartialEq, Eq)]
+pub struct VRecord {
+    pub id: NodeId,
+    pub value: u32,
+}
+
+impl From<VRecord> for NodeId {
+    fn from(r: VRecord) -> NodeId {
+        r.id
+    }
+}
+
+impl From<&VRecord> for NodeId {
+    fn from(r: &VRecord) -> NodeId {
+        r.id
+    }
+}
+
+/// Wrapper over `PredicateQuery<NodeId, VRecord>`.
+pub struct VPredicateQuery(PredicateQuery<NodeId, VRecord>);
+
+impl VPredicateQuery {
+    /// `known_closest_peers`: (id, predicate_match) pairs as the only caller supplies them.
+    pub fn new(
+        config: VQueryConfig,
+        target: NodeId,
+        known_closest_peers: Vec<(NodeId, bool)>,
+        predicate: impl Fn(&VRecord) -> bool + Send + 'static,
+    ) -> Self {
+        let cfg = PredicateQueryConfig {
+            parallelism: config.parallelism,
+            num_results: config.num_results,
+            peer_timeout: config.peer_timeout,
+        };
+        VPredicateQuery(PredicateQuery::with_config(
+            cfg,
+            Key::from(target),
+            known_closest_peers
+                .into_iter()
+                .map(|(id, predicate_match)| PredicateKey {
+                    key: Key::from(id),
+                    predicate_match,
+                }),
+            predicate,
+        ))
+    }
+    pub fn on_success(&mut self, peer: &NodeId, closer_peers: &[VRecord]) {
+        self.0.on_success(peer, closer_peers)
+    }
+    pub fn on_failure(&mut self, peer: &NodeId) {
+        self.0.on_failure(peer)
+    }
+    pub fn next(&mut self, now: Instant) -> QueryState<NodeId> {
+        self.0.next(now)
+    }
+    pub fn is_stalled(&self) -> bool {
+        self.0.verif_is_stalled()
+    }
+    pub fn into_result(self) -> Vec<NodeId> {
+        self.0.into_result()
+    }
+}
+
+/// Target type for pool-level checks.
+#[derive(Debug, Clone)]
+pub struct VTarget(pub NodeId);
+
+impl TargetKey<NodeId> for VTarget {
+    fn key(&self) -> Key<NodeId> {
+        Key::from(self.0)
+    }
+}
+
+pub type VQueryPool = QueryPool<VTarget, NodeId, VRecord>;
+
+/// `QueryPool::add_findnode_query`.
+pub fn pool_add_findnode(
+    pool: &mut VQueryPool,
+    config: VQueryConfig,
+    target: NodeId,
+    peers: Vec<NodeId>,
+) -> QueryId {
+    let cfg = FindNodeQueryConfig {
+        parallelism: config.parallelism,
+        num_results: config.num_results,
+        peer_timeout: config.peer_timeout,
+    };
+    pool.add_findnode_query(cfg, VTarget(target), peers.into_iter().map(Key::from))
+}
+
+/// `QueryPool::add_predicate_query` (crate-private).
+pub fn pool_add_predicate(
+    pool: &mut VQueryPool,
+    config: VQueryConfig,
+    target: NodeId,
+    peers: Vec<(NodeId, bool)>,
+    predicate: impl Fn(&VRecord) -> bool + Send + 'static,
+) -> QueryId {
+    let cfg = PredicateQueryConfig {
+        parallelism: config.parallelism,
+        num_results: config.num_results,
+        peer_timeout: config.peer_timeout,
+    };
+    pool.add_predicate_query(
+        cfg,
+        VTarget(target),
+        peers.into_iter().map(|(id, predicate_match)| PredicateKey {
+            key: Key::from(id),
+            predicate_match,
+        }),
+        predicate,
+    )
+}
+
+/// The distance list a lookup for `target` requests from `peer` (`None` = the peer is the target).
+pub fn findnode_log2distance(target: NodeId, peer: NodeId, size: usize) -> Option<Vec<u64>> {
+    crate::service::verif_findnode_log2distance(target, peer, size)
+}
+
+// ---------------------------------------------------------------------------------------------
+// Misc
+// ---------------------------------------------------------------------------------------------
+
+pub use crate::{discv5::PERMIT_BAN_LIST, lru_time_cache::LruTimeCache};
